@@ -63,7 +63,7 @@ def cells(tier, seed):
     for n in range(0, b["sorted_len"] + 1):
         for mode in ("default", "key", "cmp", "keycmp"):
             out.append({"k": "sorted", "n": n, "mode": mode})
-    for what in ("set", "mapkeys", "setmix", "mapkeysmix"):
+    for what in ("set", "mapkeys", "setmix", "mapkeysmix", "setseq", "mapseq"):
         out.append({"k": "enum", "what": what})
     for n in range(2, 4 if tier == "quick" else 5):
         for ki in range(len(MIXKEYS)):
@@ -336,6 +336,36 @@ def run_enum(ctx, cell):
             for i in range(len(vals) - 1):
                 ctx.check(vals[i] < vals[i + 1], key + ":mixed-numbers-not-ascending", detail)
             ctx.check(len(vals) == len(set(xs)), key + ":wrong-size", detail)
+        return out
+    if what in ("setseq", "mapseq"):
+        # enumerate, change the elements (same size / other size), enumerate again: every enumeration form
+        # gives the CURRENT elements in ascending order
+        base = [int(x) for x in xs]
+        y = base[ctx.choice("y", 3)]
+        z = int(ctx.int("z", 0, 4))
+        w = (0, 5)[ctx.choice("w", 2)]
+        if what == "setseq":
+            coll = vset([vint(x) for x in base])
+            forms = "[[x for x in s], [...s], list(s), string(s)]"
+            text = "def e1 = %s; remove(s, y); append(s, z); def e2 = %s; append(s, w); [e1, e2, %s]" % (forms, forms, forms)
+            ren = lambda ks: "<<" + ", ".join(str(k_) for k_ in ks) + ">>"
+        else:
+            coll = vmap([(vint(x), vint(7)) for x in base])
+            forms = "[[x for x in keys s], [...s], [e[0] for e in entries s], string(s)]"
+            text = "def e1 = %s; remove(s, y); s[z] = 7; def e2 = %s; s[w] = 7; [e1, e2, %s]" % (forms, forms, forms)
+            ren = lambda ks: "<<<" + ", ".join("%d => 7" % k_ for k_ in ks) + ">>>"
+        out = run_ckl(text, {"s": coll, "y": vint(y), "z": vint(z), "w": vint(w)})
+        k1 = sorted(set(base))
+        k2 = sorted((set(base) - {y}) | {z})
+        k3 = sorted(set(k2) | {w})
+        detail = lambda: {"elements": base, "removed": y, "added": [z, w], "got": ctx.plain(out)}
+        if out.kind != "ok":
+            ctx.fail("%s:%s:%s" % (key, out.kind, out.hostname() or "runtime-error"), detail)
+            return out
+        for got, ks in zip(out.value.value, (k1, k2, k3)):
+            exp = "[%s, %s, %s, '%s']" % (ks, ks, ks, ren(ks))
+            ctx.check(str(got) == exp, key + ":enumeration-after-change-not-the-current-elements-ascending",
+                      lambda: dict(detail(), expected=exp, enumeration=str(got)))
         return out
     if what == "set":
         coll = vset([vint(x) for x in xs])
